@@ -353,6 +353,13 @@ func (s *Store) Op(op string, ty TyClass, args ...*Term) *Term {
 		if args[1] == s.False && args[2] == s.True {
 			return s.Not(args[0])
 		}
+		// nested ite on the same condition
+		if args[2].Op == "ite" && args[2].Args[0] == args[0] {
+			return s.Op("ite", ty, args[0], args[1], args[2].Args[2])
+		}
+		if args[1].Op == "ite" && args[1].Args[0] == args[0] {
+			return s.Op("ite", ty, args[0], args[1].Args[1], args[2])
+		}
 		// canonical polarity: condition is never a "not"
 		if args[0].Op == "not" {
 			return s.Op("ite", ty, args[0].Args[0], args[2], args[1])
